@@ -16,11 +16,11 @@ CLAIMED = {
     "C03": dict(
         text="Lean theorems about a names-level model of residue.py's atom bookkeeping and of the hydrogen-bond optimisation objects, for EVERY residue, EVERY moved set and EVERY outcome of every hydrogen-bond attempt in any number and order: "
         "a Flip object ends after complete with exactly the names the residue had before (no *FLIP copy left, nothing lost or doubled, and finalize never hits remove_atom's KeyError); an Alcoholic object ends with the original names plus the polar hydrogen once and no LP* "
-        "(given 1-3 atoms bonded to the oxygen - shown necessary, and checked at every real finalize); a Water ends with its names plus H1 and H2 once each and no LP*; cleanup removes the doubled carboxylic proton exactly when both are present; "
+        "(given 1-3 atoms bonded to the oxygen - shown necessary, and checked at every real finalize); a Water ends with its names plus H1 and H2 once each and no LP*; a protonated carboxyl group (Carboxylic on ASH / GLH: doubled candidates, elimination, renaming, O-swap through the temporary name FLIP) ends with exactly OD1, OD2, HD2 (OE1, OE2, HE2) and everything else untouched, for every construction order and outcome sequence (closure table checked by the kernel, lifted to any residue by a simulation argument); cleanup removes the doubled carboxylic proton exactly when both are present; "
         "one residue through repair_heavy: every heavy atom of the reference present afterwards, every input atom kept or reported deleted, atoms the reference knows always kept, no duplicates; one residue through add_hydrogens: with every placement succeeding no reference hydrogen missing (except HG of a bridged cysteine), nothing removed, only reference hydrogens added; "
         "found and missing atoms of apply_force_field are together a permutation of all atoms (from C01). Tie: trace replay - every method call on the real Flip/Alcoholic/Water objects and cleanup is logged with the residue's name list before/after, return value, fixed flag and bond count, and replayed in the model. "
         "Oracle on real runs: final names of every fully parameterised residue (no duplicate, no LP*/...FLIP, exactly the atom set of its run-time reference or of the definition its final state is named after, one carboxylic proton); every input heavy atom of a recognised residue kept exactly once unless its deletion was reported; found U missing = all, PQR lines = found.",
-        note="partial: Carboxylic (doubles, O-swap through the temporary name FLIP), patch application and the composition of the stages are covered by the final-state oracle on the runs made, not by theorems; no nucleic-acid structure offline (5'-phosphate removal not exercised)",
+        note="partial: the neutral-C-terminus variant of Carboxylic, patch application and the composition of the stages are covered by the final-state oracle on the runs made, not by theorems; no nucleic-acid structure offline (5'-phosphate removal not exercised)",
         ref="DESIGN.md §4 C03",
     ),
     "C04": dict(
